@@ -5,7 +5,7 @@ import guards
 
 from mirlib import AnchorMissing, op_place, path_matches, is_bare, place_projs
 from helpers import (branches_on_call, closure_of_arg, comes_from_call, enum_switches, edge_region, eq_branches, must_pass, origin_calls, ungated_reach, chain,
-                     aggregates, field_accesses, loop_of, vexpr, bool_branches)
+                     aggregates, arm, field_accesses, loop_of, vexpr, bool_branches)
 
 EXPLANATION = (
     'Static decision of the structural clauses of C05 on the MIR of slicec: (1) in validate_ast the cycle detector runs first '
@@ -131,6 +131,35 @@ def _must_pass_cut(f, start, targets, through, cut_edges):
     reach = f.reachable(start, blocked=list(through), blocked_edges=cut_edges)
     return not (reach & set(targets))
 
+def _delegated_to_nested_types_of(prog, f):
+    """the function takes the nested references of its type_ref from nested_types_of(type_ref) (whose coverage of every wrapper form is rule
+    C05.6b) and recurses into every one of them in one loop over that list; the only way round the loop is a recorded dead end"""
+    nt = [c for c in f.calls() if c.name() == 'nested_types_of' and not f.blocks[c.bb].get('cleanup') and vexpr(f, c.args[0]) == 'arg2']
+    if len(nt) != 1:
+        return False
+    recs = [c for c in f.calls() if path_matches(c.resolved, 'check_field_type_for_cycles') and not f.blocks[c.bb].get('cleanup')]
+    loops = f.natural_loops()
+    for c in recs:
+        lp = loop_of(f, c.bb)
+        if lp is None:
+            continue
+        head, body = lp
+        nx = [x for x in f.calls() if x.name() == 'next' and x.bb in body and 'nested_types_of(arg2) as Some.0' in vexpr(f, x.args[0])]
+        if nx and vexpr(f, c.args[1]).startswith('next(') and 'nested_types_of(arg2) as Some.0' in vexpr(f, c.args[1]) \
+                and must_pass(f, head, [head] + f.return_blocks(), [c.bb] + [b for b in body if f.blocks[b]['t']['k'] == 'switch' and b == head] , within=body | set(f.return_blocks())) is not None:
+            # every iteration that yields an element recurses into it
+            yields = [s_ for s_ in enum_switches(f, 'core::option::Option') if s_['bb'] in body and s_['place'] is not None and nx[0].dest is not None and s_['place']['l'] == nx[0].dest['l']]
+            if yields and must_pass(f, arm(yields[0], 1), [head], [c.bb], within=body):
+                # and the loop is reached whenever nested_types_of gave a list, unless a dead-end test fired
+                some = [s_ for s_ in enum_switches(f, 'core::option::Option') if s_['place'] is not None and nt[0].dest is not None and s_['place']['l'] == nt[0].dest['l']]
+                cut = _dead_end_edges(prog, f)
+                if some:
+                    open_blocks = f.reachable(arm(some[0], 1), blocked=[head], blocked_edges=cut)
+                    if not [b for b in f.return_blocks() if b in open_blocks]:
+                        return True
+    return False
+
+
 def r_wrapper_coverage(r, prog):
     f = prog.fn(CD + "CycleDetector::<'a>::check_field_type_for_cycles")
     types_adt = 'slicec::grammar::wrappers::Types'
@@ -178,6 +207,8 @@ def r_wrapper_coverage(r, prog):
                     r.ok('Types::%s: recursion into %s.%s on every path' % (v['n'], payload.rsplit('::', 1)[-1], fld))
                 elif _collected_and_iterated(prog, f, sw, tgt, fld, rets):
                     r.ok('Types::%s: %s.%s is collected and every collected reference is recursed into (dead ends apart)' % (v['n'], payload.rsplit('::', 1)[-1], fld))
+                elif _delegated_to_nested_types_of(prog, f):
+                    r.ok('Types::%s: %s.%s is among the references nested_types_of hands back (rule C05.6b), each of which is recursed into (dead ends apart)' % (v['n'], payload.rsplit('::', 1)[-1], fld))
                 else:
                     r.finding('wrapper-field-not-traversed:%s.%s' % (v['n'], fld), f.span,
                               'the Types::%s arm does not recurse into %s on every path: a cycle routed through that position is not detected' % (v['n'], fld))
